@@ -58,8 +58,13 @@ def compute_target(target, settings=None, tmpdir=None):
         if settings.get('logging') and tmpdir:
             Logger.register_standard_logs(os.path.join(tmpdir, 'blk'))
         try:
-            s.ParseString(target['text'])
-            s.SolveEquation()
+            for hook in settings.get('between_config_and_solve', []):
+                hook()
+            try:
+                s.ParseString(target['text'])
+                s.SolveEquation()
+            except (NameError, ValueError) as e:
+                return {'__error__': [type(e).__name__]}
             out = series_repr(s.TimeSeries)
             for _ in range(settings.get('resolves', 0)):
                 s.SolveEquation()
@@ -121,10 +126,15 @@ class C17(object):
                 nm = G.fresh_names(rng, 2, avoid=G.all_value_names(spec) + [d['name'] for d in spec['decos']])
                 target['text'] = ('%s = half(%s) + 1.0\n%s = damp(%s, %s)\n' % (nm[0], nm[0], nm[1], nm[0], x)) + target['text']
                 target['funcs'] = True
+            elif rng.random() < 0.25:
+                # uses a function nobody registered on THIS solver: must fail the same way in any process history
+                x = spec['simul'][0]['name']
+                nm = G.fresh_names(rng, 1, avoid=G.all_value_names(spec) + [d['name'] for d in spec['decos']])
+                target['text'] = ('%s = half(%s) + 1.0\n' % (nm[0], x)) + target['text']
         hist = []
         for _ in range(rng.randint(0, 6)):
             op = rng.choice(['build_solve', 'build_only', 'failed_build', 'other_solver', 'failed_solver',
-                             'interleave', 'same_target_before'])
+                             'interleave', 'same_target_before', 'rival_functions', 'rival_functions'])
             hist.append({'op': op, 'name': rng.choice(BOOKS + ['REG2']), 'maxtime': rng.randint(1, 4)})
         settings = {'logging': rng.random() < 0.5, 'preregister': rng.random() < 0.5,
                     'trace': rng.choice([None, None, 1, 2]), 'resolves': rng.choice([0, 0, 1, 2, 3])}
@@ -179,6 +189,18 @@ class C17(object):
                         h1.GetVariableName('INC')
                         Sector(c2, 'S', 's').AddVariable('X', 'x', '1.0')
                     hooks.append(hook)
+                elif op['op'] == 'rival_functions':
+                    def rival():
+                        r = EquationSolver('x = 0.5*half(x) + damp(y, 1.0)\ny = 0.25*x + 1\nMaxTime = 2')
+                        r.AddFunction('half', lambda v: 3.0 * v + 7.0)
+                        r.AddFunction('damp', lambda a, b: 11.0)
+                        r.AddFunction('f2', lambda v: -v)
+                        try:
+                            r.SolveEquation()
+                        except ValueError:
+                            pass
+                    rival()              # before the target is configured ...
+                    hooks.append(rival)  # ... and again between its configuration and its solve
                 elif op['op'] == 'same_target_before':
                     compute_target(target)
             rec.count('history.ops')
@@ -199,6 +221,7 @@ class C17(object):
         tmp = tempfile.mkdtemp(prefix='vf_c17_')
         settings = dict(case['settings'])
         settings['between_build_and_main'] = hooks
+        settings['between_config_and_solve'] = hooks
         try:
             got = compute_target(case['target'], settings, tmpdir=tmp)
         except Exception as e:
